@@ -1,26 +1,217 @@
-//! C05: not implemented yet.
+//! C05: IR text round-trips.
+//! Monitor (hook H1): at every stage of the real debug and release pipelines the IR is printed,
+//! parsed back, printed, parsed and printed again; finally the program is compiled from the
+//! re-parsed IR and must behave like the normally compiled one. Plus the IR files of
+//! sway-ir/tests.
 use crate::common::*;
+use crate::engine::*;
+use crate::irhook::*;
+use crate::swrun::*;
 use crate::{Plan, Prop};
+use serde_json::{json, Value};
+use std::panic::AssertUnwindSafe;
 
 pub static META: PropertyMeta = PropertyMeta {
     id: "C05",
     level: "exploration",
-    rule: "not implemented",
-    assumptions: &[],
-    floor_evaluations: 1,
-    floor_nontrivial: 2,
-    required_counters: &[],
+    rule: "SwGen programs x {debug, release} pipelines: T1 = print(ir), T2 = print(parse(T1)), T3 = print(parse(T2)) after every pass (stages); parse failures, T2 != T1 beyond value/metadata renumbering and T3 != T2 are reported; the bytecode compiled from parse(print(final ir)) runs on 8 inputs against the normal build; plus every .ir file under sway-ir/tests (shard 0); an evaluation = one (program, profile); non-trivial = >= 5 stages round-tripped and the substituted build executed; distinct = hash of (source, profile)",
+    assumptions: &["the parser's own verify() call is what 'verifies' means", "fuel-vm 0.66 is the trusted execution substrate"],
+    floor_evaluations: 30,
+    floor_nontrivial: 10,
+    required_counters: &["stages_roundtripped", "substituted_builds_executed", "instr_kinds_seen"],
 };
 
 pub static PROP: Prop = Prop {
     meta: &META,
-    plan: |_t| Plan { nshards: 1, budget_s: 1.0, mem_gib: 0 },
-    shard: |_ctx| {
-        let mut r = ShardResult::default();
-        r.harness_fault = Some("not implemented".into());
-        r
-    },
-    replay: crate::no_replay,
+    plan: |t| Plan { nshards: 16, budget_s: t.pick(55.0, 900.0), mem_gib: 6 },
+    shard,
+    replay,
     extra: crate::no_extra,
     subcommand: crate::no_subcommand,
 };
+
+pub const RENUMBER_SIG: &str = "roundtrip-renumbers-value-names";
+
+/// Signature of a parse failure: the shape of the text the parser stopped at.
+fn parse_failure_sig(detail: &str) -> String {
+    // "... found '<text the parser stopped at>'": the first two words of that text name the
+    // construct the printer emits and the parser does not accept
+    let found = detail.rsplit("found '").next().unwrap_or(detail);
+    let words: Vec<String> = found.split(|c: char| c.is_whitespace() || c == '(' || c == ',').filter(|w| !w.is_empty()).take(2).map(line_shape).collect();
+    format!("ir-parse-failure:{}", words.join(" "))
+}
+
+fn classify(log: &HookLog, profile: Profile, res: &mut ShardResult, replay: &Value, kinds: &mut std::collections::BTreeSet<String>) {
+    kinds.extend(log.instr_kinds.iter().cloned());
+    let mut renumbered = 0u64;
+    for ev in &log.rt {
+        res.count("stages_roundtripped");
+        match ev.kind.as_str() {
+            "ok" => res.count("stages_identical_text"),
+            "renumbered" => renumbered += 1,
+            "parse-failure" | "parse-failure-second" => {
+                res.violation(parse_failure_sig(&ev.detail), format!("[{} after {}] printed IR is rejected by the IR parser: {}", profile.name(), ev.stage, ev.detail.chars().take(200).collect::<String>()), replay.clone());
+            }
+            "text-differs" => {
+                res.violation(format!("roundtrip-text-differs:{}", line_shape(&ev.detail)), format!("[{} after {}] print(parse(print(ir))) differs from print(ir) beyond renumbering: {}", profile.name(), ev.stage, ev.detail.chars().take(300).collect::<String>()), replay.clone());
+            }
+            "second-roundtrip-differs" => {
+                res.violation(format!("second-roundtrip-differs:{}", line_shape(&ev.detail)), format!("[{} after {}] the re-parsed module does not print to a fix point: {}", profile.name(), ev.stage, ev.detail.chars().take(300).collect::<String>()), replay.clone());
+            }
+            _ => {}
+        }
+    }
+    if renumbered > 0 {
+        res.add("stages_renumbered_only", renumbered);
+        // one aggregated report per (program, profile)
+        res.violation(RENUMBER_SIG, format!("print -> parse -> print renames SSA values / metadata indices ({renumbered} stages of this module); the texts are equal after renaming in order of first occurrence"), json!({"note": "aggregated; see any stage of any module"}));
+    }
+}
+
+fn run_one(am: &mut Amortised, case: &Case, profile: Profile, res: &mut ShardResult, kinds: &mut std::collections::BTreeSet<String>) {
+    res.evaluations += 1;
+    let replay = case.replay_json(json!({"profile": profile.name()}));
+    // normal build
+    let normal = match catch(AssertUnwindSafe(|| am.compile("gencase", &case.src, profile))) {
+        Ok(Ok(c)) => c,
+        _ => {
+            res.count("rejected");
+            let _ = std::fs::remove_dir_all(am.last_dir());
+            return;
+        }
+    };
+    let cfg = HookCfg { roundtrip_each: true, substitute_final: true, ..Default::default() };
+    let (r, log) = with_hook(cfg, false, || catch(AssertUnwindSafe(|| am.compile("gencase", &case.src, profile))));
+    classify(&log, profile, res, &replay, kinds);
+    let sub = match r {
+        Ok(Ok(c)) => c,
+        Ok(Err(_)) => {
+            let _ = std::fs::remove_dir_all(am.last_dir());
+            // the normal build succeeded: the re-parsed IR is not accepted (unless the parser already failed above)
+            if !log.rt.iter().any(|e| e.kind.starts_with("parse-failure")) {
+                res.violation(format!("reparsed-ir-not-compilable:{:016x}", hash64(case.src.as_bytes())), format!("[{}] the program compiles normally but not from parse(print(final ir))", profile.name()), replay);
+            }
+            am.remove(&normal);
+            return;
+        }
+        Err((loc, msg)) => {
+            res.violation(format!("roundtrip-panic:{}", panic_signature(&loc, &msg)), format!("[{}] panic while round-tripping / compiling re-parsed IR at {loc}: {}", profile.name(), msg.chars().take(160).collect::<String>()), replay);
+            let _ = std::fs::remove_dir_all(am.last_dir());
+            am.remove(&normal);
+            return;
+        }
+    };
+    res.count("substituted_builds_executed");
+    if sub.pkg.bytecode.bytes == normal.pkg.bytecode.bytes {
+        res.count("substituted_bytecode_identical");
+    }
+    for (k, d) in case.script_data.iter().enumerate() {
+        let a = run_script(&normal.pkg.bytecode.bytes, d);
+        let b = run_script(&sub.pkg.bytecode.bytes, d);
+        res.count("executions_compared");
+        if !(a.outcome == b.outcome && a.logs == b.logs) {
+            res.violation(format!("reparsed-ir-behaves-differently:{:016x}", hash64(case.src.as_bytes())), format!("[{} input {k}] normal build: {} / build from re-parsed IR: {}", profile.name(), a.short(), b.short()), replay.clone());
+            break;
+        }
+    }
+    if log.rt.len() >= 5 {
+        res.note_nontrivial(hash64(format!("{}{}", case.src, profile.name()).as_bytes()));
+    }
+    if res.samples.len() < 2 {
+        res.sample(json!({"profile": profile.name(), "stages": log.rt.iter().map(|e| format!("{}:{}", e.stage, e.kind)).collect::<Vec<_>>(), "source_head": case.src.lines().take(8).collect::<Vec<_>>()}));
+    }
+    am.remove(&normal);
+    am.remove(&sub);
+}
+
+/// The .ir files of sway-ir/tests: parse -> print -> parse -> print must reach a fix point.
+fn ir_test_files(res: &mut ShardResult) {
+    let se = sway_types::SourceEngine::default();
+    for entry in walkdir::WalkDir::new("/repo/sway-ir/tests").into_iter().filter_map(|e| e.ok()) {
+        if entry.path().extension().map(|x| x == "ir").unwrap_or(false) {
+            let Ok(text) = std::fs::read_to_string(entry.path()) else { continue };
+            res.evaluations += 1;
+            res.count("ir_test_files");
+            let rel = entry.path().strip_prefix("/repo").unwrap().display().to_string();
+            // these files are written in the old-encoding dialect; the repository's own IR tests
+            // (sway-ir/tests/tests.rs) parse them with new_encoding = false, so does this monitor
+            let exp = sway_features::ExperimentalFeatures { new_encoding: false, ..Default::default() };
+            let r = catch(AssertUnwindSafe(|| {
+                let m0 = sway_ir::parser::parse(&text, &se, exp, sway_ir::Backtrace::default()).map_err(|e| e.to_string())?;
+                let t1 = sway_ir::printer::to_string(&m0);
+                let m1 = sway_ir::parser::parse(&t1, &se, exp, sway_ir::Backtrace::default()).map_err(|e| format!("printed text rejected: {e}"))?;
+                let t2 = sway_ir::printer::to_string(&m1);
+                Ok::<(String, String), String>((t1, t2))
+            }));
+            match r {
+                Ok(Ok((t1, t2))) => {
+                    res.count("stages_roundtripped");
+                    if t1 == t2 {
+                        res.count("stages_identical_text");
+                    } else if canonical_names(&t1) == canonical_names(&t2) {
+                        res.violation(RENUMBER_SIG, "print -> parse -> print renames SSA values / metadata indices".to_string(), json!({"ir_file": rel}));
+                    } else {
+                        res.violation(format!("roundtrip-text-differs:irfile:{rel}"), format!("{rel}: print(parse(print(m))) differs from print(m)"), json!({"ir_file": rel}));
+                    }
+                }
+                Ok(Err(e)) => {
+                    if e.starts_with("printed text rejected") {
+                        res.violation(parse_failure_sig(&e), format!("{rel}: {e}"), json!({"ir_file": rel}));
+                    } else {
+                        res.count("ir_test_files_not_parsable_as_given");
+                    }
+                }
+                Err((loc, msg)) => res.violation(format!("roundtrip-panic:{}", panic_signature(&loc, &msg)), format!("{rel}: panic at {loc}: {msg}"), json!({"ir_file": rel})),
+            }
+        }
+    }
+}
+
+fn shard(ctx: &ShardCtx) -> ShardResult {
+    let mut res = ShardResult::default();
+    let mut kinds = std::collections::BTreeSet::new();
+    if ctx.shard == 0 && ctx.first_index == 0 {
+        ir_test_files(&mut res);
+    }
+    let mut am = Amortised::new(&ctx.work());
+    if let Err(e) = am.warm() {
+        res.harness_fault = Some(format!("std does not compile: {e}"));
+        return res;
+    }
+    let mut i = ctx.first_index;
+    let clock = ctx.clock();
+    while clock.left() {
+        let mut scratch = ShardResult::default();
+        let case = case_at(ctx.seed ^ 0x0c05, ctx.shard, i / 2, 8, &mut scratch);
+        let profile = if i % 2 == 0 { Profile::Debug } else { Profile::Release };
+        ctx.begin_case(i, &format!("// origin: {:?} {}\n{}", case.origin, profile.name(), case.src), &res);
+        run_one(&mut am, &case, profile, &mut res, &mut kinds);
+        ctx.end_case();
+        res.counters.insert("instr_kinds_seen".into(), kinds.len() as u64);
+        i += 1;
+    }
+    res.counters.insert("max_instr_kinds_seen".into(), kinds.len() as u64);
+    if res.samples.len() < 4 {
+        res.sample(json!({"instruction_kinds_seen_in_printed_ir": kinds.iter().take(80).collect::<Vec<_>>()}));
+    }
+    res
+}
+
+fn replay(v: &Value) -> ShardResult {
+    let mut res = ShardResult::default();
+    let mut kinds = std::collections::BTreeSet::new();
+    if v.get("ir_file").is_some() || v.get("note").is_some() {
+        ir_test_files(&mut res);
+        return res;
+    }
+    let work = work_dir("C05").join("replay");
+    clean_dir(&work);
+    let mut am = Amortised::new(&work);
+    let Some(case) = case_from_replay(v) else {
+        res.harness_fault = Some("the generator no longer reproduces the recorded program".into());
+        return res;
+    };
+    let profile = if v["extra"]["profile"].as_str() == Some("release") { Profile::Release } else { Profile::Debug };
+    run_one(&mut am, &case, profile, &mut res, &mut kinds);
+    res
+}
